@@ -173,11 +173,39 @@ def cctpDepositForBurn (cfg : Cfg) (c : Ctx) (amount : Int) (domain : Nat) (mint
   if !caller.isEmpty && (caller.length != 32 || caller == zeros 32) then (.err "cctp:caller" : Res Unit) else pure ()
   pure c
 
+/-- hyperlane-cosmos `HexAddress.GetInternalId`: the warp keeper keys tokens and routers by the last eight of the 32
+bytes only (`HypTokens.Get(ctx, id.GetInternalId())`) — the module and type parts of an identifier are not compared. -/
+def internalId (id : Bytes) : Bytes := id.drop 24
+
 def lookupTok (toks : List (Bytes × String)) (id : Bytes) : Option String :=
-  (toks.find? (·.1 == id)).map (·.2)
+  (toks.find? (internalId ·.1 == internalId id)).map (·.2)
 
 def lookupRouter (rs : List (Bytes × Nat × Nat)) (id : Bytes) (domain : Nat) : Option Nat :=
-  (rs.find? fun r => r.1 == id && r.2.1 == domain).map (·.2.2)
+  (rs.find? fun r => internalId r.1 == internalId id && r.2.1 == domain).map (·.2.2)
+
+/-- Big-endian number. -/
+def beNat (b : Bytes) : Nat := b.foldl (fun a x => a * 256 + x.toNat) 0
+
+/-- The hooks a transfer can end up paying: the mailbox's default hook, or any one ever created. -/
+def ExtState.hooks (e : ExtState) : List Hook := e.hypHook :: .noop :: e.hypIgps
+
+/-- A caller-chosen post-dispatch hook as the hyperlane-cosmos router resolves it (`Router.GetModule(id.GetType())`, then
+the handler's own table by `id.GetInternalId()`): bytes 20..24 name the hook type — 0 the no-op hooks, of which the
+environment has the one of the set-up (internal id 0); 4 the gas paymasters — and the last eight bytes the hook. Nothing
+else of the identifier is compared. Merkle-tree hooks (type 3) are never created by the environment. -/
+def resolveHook (e : ExtState) (id : Bytes) : Option Hook :=
+  let ty := beNat ((id.drop 20).take 4)
+  let n := beNat (id.drop 24)
+  if ty == 0 then (if n == 0 then some .noop else none)
+  else if ty == 4 then (if n == 0 then none else e.hypIgps[n - 1]?)
+  else none
+
+/-- The hook that runs after the required one: the caller's when given, the mailbox default otherwise. -/
+def hookFor (e : ExtState) (customHook : Bytes) : Res Hook :=
+  if customHook.isEmpty then .ok e.hypHook
+  else match resolveHook e customHook with
+    | some h => .ok h
+    | none => .err "warp:unknown-hook"
 
 /-- hyperlane-cosmos warp `RemoteTransfer` (collateral token) + mailbox dispatch + default hook. -/
 def warpRemoteTransfer (cfg : Cfg) (c : Ctx) (token : Bytes) (domain : Nat) (amount gas : Int)
@@ -191,9 +219,9 @@ def warpRemoteTransfer (cfg : Cfg) (c : Ctx) (token : Bytes) (domain : Nat) (amo
     | none => .err "warp:no-router"
   -- sdk.NewCoins(maxFee)
   if feeAmt < 0 || (feeAmt != 0 && !validDenom feeDenom) then (.panic "warp:NewCoins(maxFee)" : Res Unit) else pure ()
-  -- a custom post-dispatch hook must exist; the modelled environment registers none under a caller-chosen id
-  if !customHook.isEmpty then (.err "warp:unknown-hook" : Res Unit) else pure ()
-  match c.ext.hypHook with
+  -- a custom post-dispatch hook must exist
+  let hook ← hookFor c.ext customHook
+  match hook with
   | .noop => pure c
   | .igp idenom idomain rate price overhead =>
     if idomain != domain then .err "igp:domain" else
